@@ -158,12 +158,12 @@ Proof.
 Qed.
 
 (* what an accepted update does: the array, and the global history *)
-Lemma arr_update_spec cf P f s t pos ins del f' s' : arr_update cf f s t pos ins del = Ok (f', s') ->
+Lemma arr_update_spec cf f s t pos ins del f' s' : arr_update cf f s t pos ins del = Ok (f', s') ->
   (ins = 0 /\ del = 0 /\ f' = f /\ s' = s) \/
   exists A dead B,
     f_vals f = A ++ dead ++ B /\ f_vals f' = A ++ repeat t (Z.to_nat ins) ++ B /\
     Z.of_nat (length A) = pos /\ Z.of_nat (length dead) = del /\ 0 <= ins /\ f_hist f' = f_hist f /\
-    wsum P (s_gh s') = wsum P (s_gh s) + eff cf P t t ins + effs cf P t dead.
+    forall P, wsum P (s_gh s') = wsum P (s_gh s) + eff cf P t t ins + effs cf P t dead.
 Proof.
   unfold arr_update. intros E.
   destruct ((pos <? 0) || (ins <? 0) || (del <? 0)) eqn:Eg; [discriminate|].
@@ -185,7 +185,7 @@ Proof.
     split; auto. cbn [f_vals f_hist]. split; auto.
     split; [rewrite firstn_length; lia|].
     split; [unfold dead; rewrite firstn_length, skipn_length; lia|].
-    split; [lia|]. split; auto.
+    split; [lia|]. split; auto. intros P.
     rewrite (report_deleted_gh cf P _ _ _ _ _ E2).
     assert (wsum P (s_gh s1) = wsum P (s_gh s) + eff cf P t t ins); [|lia].
     unfold r1 in E1. destruct (Z.ltb_spec 0 ins).
@@ -213,4 +213,42 @@ Proof.
   - unfold r1 in E1. destruct (0 <? ins).
     + eapply update_time_ok; eauto. intros. lia.
     + inversion E1; subst; auto.
+Qed.
+
+(* ---------- keys only grow; an insertion books its tick ---------- *)
+Lemma update_time_keys cf hd s cur prev d s' : update_time cf hd s cur prev d = Ok s' ->
+  forall x, In x (keys (s_gh s)) -> In x (keys (s_gh s')).
+Proof.
+  intros E x Hx. destruct (update_time_cases _ _ _ _ _ _ _ E) as [(_ & ->)|[(_ & _ & ->)|(_ & _ & E3)]]; auto.
+  rewrite E3. apply keys_sp_add. auto.
+Qed.
+
+Lemma report_deleted_keys cf hd t vs : forall s s', report_deleted cf hd s t vs = Ok s' ->
+  forall x, In x (keys (s_gh s)) -> In x (keys (s_gh s')).
+Proof.
+  induction vs as [|v r IH]; intros s s' E x Hx; cbn [report_deleted] in E.
+  - inversion E; subst; auto.
+  - destruct (update_time cf hd s t v (-1)) as [s1| |] eqn:E1; try discriminate.
+    eapply IH; eauto. eapply update_time_keys; eauto.
+Qed.
+
+Lemma arr_update_keys cf f s t pos ins del f' s' : arr_update cf f s t pos ins del = Ok (f', s') ->
+  (forall x, In x (keys (s_gh s)) -> In x (keys (s_gh s'))) /\
+  (is_mark t = false -> 0 < ins -> In (tp cf t) (keys (s_gh s'))).
+Proof.
+  unfold arr_update. intros E.
+  destruct ((pos <? 0) || (ins <? 0) || (del <? 0)); [discriminate|].
+  destruct ((ins =? 0) && (del =? 0)) eqn:Ez.
+  { inversion E; subst. split; auto. intros _ Hi. apply andb_prop in Ez. lia. }
+  destruct ((Z.of_nat (length (f_vals f)) <? pos) || (Z.of_nat (length (f_vals f)) <? pos + del)); [discriminate|].
+  set (r1 := if 0 <? ins then update_time cf (f_hist f) s t t ins else Ok s) in *.
+  destruct r1 as [s1| |] eqn:E1; try discriminate.
+  destruct (report_deleted cf (f_hist f) s1 t _) as [s2| |] eqn:E2; try discriminate.
+  inversion E; subst f' s'. clear E. unfold r1 in E1. split.
+  - intros x Hx. eapply report_deleted_keys; eauto. destruct (0 <? ins).
+    + eapply update_time_keys; eauto.
+    + inversion E1; subst; auto.
+  - intros Hm Hi. eapply report_deleted_keys; eauto. destruct (Z.ltb_spec 0 ins); [|lia].
+    destruct (update_time_cases _ _ _ _ _ _ _ E1) as [(Em & _)|[(_ & Em & _)|(_ & _ & E3)]]; try congruence.
+    rewrite E3. apply keys_sp_add. auto.
 Qed.
